@@ -87,7 +87,7 @@ pub fn draw_stakes(n: usize, stream: &str) -> (Vec<u64>, &'static str) {
             v[kernel::choose(stream, n as u64) as usize] = whale.max(1);
             (v, "whale_under_threshold")
         }
-        3 => {
+        3 if n <= 20 => {
             // multiples of 5 summing to 100: subset sums land exactly on 20/40/60/80
             let mut v = vec![0u64; n];
             let mut left = 100u64;
